@@ -108,6 +108,28 @@ def sc(x):
     return x
 
 
+SAFETY_KINDS = ("divisor != 0", "sqrt argument >= 0", "arcsin argument in [-1,1]", "arccos argument in [-1,1]",
+                "log argument > 0", "pow base/exponent domain", "division by the constant 0")
+
+
+def safe(ctx, name, outs, site=None):
+    """symbolic: pose every collected domain side condition (divisors != 0, sqrt / arcsin / arccos arguments).
+    concrete (validation and replay of a side-condition counterexample): the same obligation names hold iff the code
+    produced no inf / nan in the listed outputs -- that is what a violated side condition looks like on plain numpy"""
+    if ctx.mode == "symbolic":
+        if site == "grain corners":
+            # the arccos argument of delta(k) (nested radicals) is beyond the solver: outside the claim
+            ctx.safety = [x for x in ctx.safety if "arccos" not in x[1]]
+        ctx.safe(name)
+        return
+    ok = True
+    if ctx.mode == "concrete":
+        for o in outs:
+            ok = ok and bool(np.all(np.isfinite(np.asarray(o, dtype=float))))
+    for kind in SAFETY_KINDS:
+        ctx.prove("%s:%s" % (name, kind), ok)
+
+
 def factors(ctx, p, site):
     """the three cached factors; for edge/corner sites their positivity is an assumption (opaque arcsin/arccos)"""
     nb = p.nucleation
@@ -148,6 +170,10 @@ def barrier(ctx, site="bulk", n=1):
         ctx.prove("dG > 0, no clamp: Gcrit >= 0", ctx.implies(free, ctx.le(0.0, Gi)))
         ctx.prove("dG > 0, Rmin clamp active: Gcrit = spherical barrier * volumeFactor/(4 pi/3)", ctx.implies(clamp, ctx.eq(Gi, ref)))
         ctx.prove("dG > 0, Rmin clamp active: Gcrit >= 0", ctx.implies(clamp, ctx.le(0.0, Gi)))
+    safe(ctx, "barrier well defined", [R, G], site)
+    if n > 1:
+        R0, G0 = NR.nucleationBarrier(ds[n - 1], p)
+        ctx.prove("scalar and array arguments agree", ctx.all([ctx.eq(sc(R0), sc(Rs[n - 1])), ctx.eq(sc(G0), sc(Gs[n - 1]))]))
 
 
 # =========================================================================== 2. Clemm-Fisher factors
@@ -174,10 +200,7 @@ def cf_identity(ctx, site="grain edges", n=1, safety=True):
     for i in range(n):
         ctx.prove("areaFactor - 2k*gbRemoval = 3*volumeFactor", ctx.eq(bs[i] - 2 * ks[i] * as_[i], 3 * cs[i], rtol=1e-7, atol=1e-9))
     if safety:
-        if site == "grain corners" and ctx.mode == "symbolic":
-            # the arccos argument of delta(k) (nested radicals) is beyond the solver: outside the claim
-            ctx.safety = [x for x in ctx.safety if "arccos" not in x[1]]
-        ctx.safe("factor formulas well defined")
+        safe(ctx, "factor formulas well defined", [b, a, c], site)
     if n > 1:
         # array and scalar calls agree
         b0 = sc(d.areaFactor(ks[0], setInvalidToNan=False)); c1 = sc(d.volumeFactor(ks[n - 1], setInvalidToNan=False))
@@ -189,9 +212,11 @@ def close(x, y, tol=1e-12):
 
 
 def cf_k0(ctx, site="grain edges"):
-    """at k = 0 the area and volume factors are the spherical 4 pi and 4 pi / 3 (evaluated, no unknowns), through the
-    description API and through NucleationBarrierParameters with gbEnergy = 0 and a symbolic gamma-independent path"""
+    """at k = 0 the area and volume factors are the spherical 4 pi and 4 pi / 3 (plain evaluation, no unknowns: scalar
+    and array argument, and the cached factors of a NucleationBarrierParameters with gbEnergy = 0); with them the
+    heterogeneous Rcrit / Gcrit are the bulk expressions for every positive driving force"""
     d = mk_desc(site)
+    dG = pos(ctx, "dG", (0.5, 3.0))
     b = sc(d.areaFactor(0.0)); c = sc(d.volumeFactor(0.0))
     b2 = sc(d.areaFactor(np.array([0.0, 0.0]))[1]); c2 = sc(d.volumeFactor(np.array([0.0, 0.0]))[0])
     ctx.observe("b", float(b)); ctx.observe("c", float(c))
@@ -200,11 +225,10 @@ def cf_k0(ctx, site="grain edges"):
     nb = NucleationBarrierParameters(site=site, gamma=0.37, gbEnergy=0.0)
     ctx.prove("cached factors at gbEnergy = 0 are spherical", close(sc(nb.areaFactor), 4 * math.pi) and close(sc(nb.volumeFactor), 4 * math.pi / 3))
     # with the spherical factors the heterogeneous barrier is the bulk one (symbolic dG, gamma fixed)
-    dG = pos(ctx, "dG", (0.5, 3.0))
     R = nb.Rcrit(dG)
     G = nb.Gcrit(dG, R)
     ctx.observe("R", sc(R)); ctx.observe("G", sc(G))
-    ctx.prove("k = 0: Rcrit = 2 gamma / dG", ctx.eq(sc(R) * dG, 2 * 0.37, rtol=1e-9) if ctx.mode == "concrete" else close_sym(ctx, sc(R) * dG, 0.74))
+    ctx.prove("k = 0: Rcrit = 2 gamma / dG", close_sym(ctx, sc(R) * dG, 0.74))
     ctx.prove("k = 0: Gcrit = 4 pi/3 gamma Rcrit^2", close_sym(ctx, sc(G) * dG * dG, 4 * math.pi / 3 * 0.37 * 0.74 * 0.74))
 
 
@@ -213,6 +237,26 @@ def close_sym(ctx, x, y, tol=1e-9):
     if ctx.mode == "concrete":
         return close(x, y, tol)
     return ctx.all([ctx.le(y - tol * abs(y), x), ctx.le(x, y + tol * abs(y))])
+
+
+def cf_grid(ctx, site="grain edges", N=400):
+    """SAMPLED, not proved (the edge / corner formulas need the real arcsin / arccos): on N+1 equally spaced ratios in
+    [0, description.maxRatio - 1e-4] every factor is finite and >= 0, the Clemm-Fisher identity holds to 1e-9, and the volume factor
+    decreases from the spherical value"""
+    d = mk_desc(site)
+    top = (float(d.maxRatio) - 1e-4) if math.isfinite(d.maxRatio) else 5.0      # the code's own admissible range
+    ks = np.array([top * i / N for i in range(N + 1)], dtype=float)
+    b = np.asarray(d.areaFactor(ks), dtype=float); a = np.asarray(d.gbRemoval(ks), dtype=float)
+    c = np.asarray(d.volumeFactor(ks), dtype=float); r = np.asarray(d.areaRemoval(ks), dtype=float)
+    ctx.observe("c_mid", float(c[N // 2])); ctx.observe("b_mid", float(b[N // 2]))
+    tag = "sampled (%d points): " % (N + 1)
+    ctx.prove(tag + "factors finite", bool(np.all(np.isfinite(b)) and np.all(np.isfinite(a)) and np.all(np.isfinite(c)) and np.all(np.isfinite(r))))
+    ctx.prove(tag + "factors >= 0", bool(np.all(b >= 0) and np.all(a >= 0) and np.all(c >= 0) and np.all(r >= 0)))
+    ctx.prove(tag + "areaFactor - 2k*gbRemoval = 3*volumeFactor", bool(np.all(np.abs(b - 2 * ks * a - 3 * c) <= 1e-9)))
+    ctx.prove(tag + "volumeFactor does not increase with k", bool(np.all(np.diff(c) <= 1e-12)))
+    if IS_GB[site]:
+        ctx.prove(tag + "volumeFactor decreases with k", bool(np.all(np.diff(c) < 0)))
+    ctx.prove(tag + "spherical values at k = 0", close(b[0], 4 * math.pi) and close(c[0], 4 * math.pi / 3))
 
 
 def gb_poly(ctx):
@@ -229,7 +273,7 @@ def gb_poly(ctx):
         ctx.prove("volumeFactor >= 0", ctx.le(0.0, c[i]))
         ctx.prove("areaRemoval >= 0", ctx.le(0.0, r[i]))
     ctx.prove("volumeFactor decreases with k", ctx.lt(c[1], c[0]))
-    ctx.safe("factor formulas well defined")
+    safe(ctx, "factor formulas well defined", [b, a, c, r])
 
 
 # =========================================================================== 3. rate chain
@@ -334,29 +378,41 @@ def rates(ctx, site="bulk", beta_kind=1, n=1):
         ctx.prove("nucleation rate >= 0", ctx.le(0.0, rate[i]))
         ctx.prove("steady-state rate >= 0", ctx.le(0.0, rate_ss[i]))
         ctx.prove("transient rate <= steady-state rate (incubation factor <= 1)", ctx.le(rate[i], rate_ss[i]))
-    ctx.safe("every division / root / exp argument well defined")
+    safe(ctx, "every division / root / exp argument well defined", [R, G, Z, beta, tau, rate, rate_ss, Rn], site)
+    if n > 1:
+        j = n - 1
+        Zs = sc(NR.zeldovich(Ts[j], R[j], p)); taus = sc(NR.incubationTime(beta[j], Z[j], matrix))
+        rs = sc(NR.nucleationRate(Z[j], beta[j], G[j], Ts[j], tau[j], time=t)); Rns = sc(NR.nucleationRadius(Ts[j], R[j], p))
+        ctx.prove("scalar and array arguments agree", ctx.all([ctx.eq(Zs, Z[j]), ctx.eq(taus, tau[j]), ctx.eq(rs, rate[j]), ctx.eq(Rns, Rn[j])]))
 
 
-def incubation(ctx, n=1):
-    """nucleationRate on symbolic Z, beta >= 0, Gcrit != 0, T > 0, tau >= 0: rate(t) >= 0, non-decreasing in t,
-    bounded by the steady-state value (t = inf): the incubation factor min(exp(-tau/t), 1) is in [0,1] and rises with t"""
-    Z = ctx.reals("Z", n, (0.0, 2.0)); beta = ctx.reals("beta", n, (0.0, 2.0)); G = ctx.reals("G", n, (0.1, 2.0))
+def incubation(ctx, n=1, steady=True):
+    """nucleationRate on symbolic Z, beta >= 0, Gcrit != 0, T > 0, tau >= 0: rate(t) >= 0, rising with t (strictly
+    while the delay matters: tau > 0 and a positive rate), bounded by the steady-state value (t = inf, steady=True):
+    the incubation factor min(exp(-tau/t), 1) is in [0,1] and rises with t"""
+    Z = ctx.reals("Z", n, (0.1, 2.0)); beta = ctx.reals("beta", n, (0.1, 2.0)); G = ctx.reals("G", n, (0.1, 2.0))
     T = ctx.reals("T", n, (1e22, 1e23)); tau = ctx.reals("tau", n, (0.0, 3.0))
     for i in range(n):
         ctx.assume(Z[i] >= 0); ctx.assume(beta[i] >= 0); ctx.assume(T[i] > 0); ctx.assume(tau[i] >= 0)
     t1 = pos(ctx, "t1", (0.1, 2.0)); t2 = ctx.real("t2", (2.0, 9.0)); ctx.assume(t1 < t2)
     r1 = NR.nucleationRate(Z, beta, G, T, tau, time=t1)
     r2 = NR.nucleationRate(Z, beta, G, T, tau, time=t2)
-    rs = NR.nucleationRate(Z, beta, G, T, tau)
-    ctx.observe("r1", sc(r1)); ctx.observe("r2", sc(r2)); ctx.observe("rs", sc(rs))
-    r1, r2, rs = (elems(v, n) for v in (r1, r2, rs))
+    ctx.observe("r1", sc(r1)); ctx.observe("r2", sc(r2))
+    if steady:
+        rs = NR.nucleationRate(Z, beta, G, T, tau)
+        ctx.observe("rs", sc(rs))
+        rs = elems(rs, n)
+    r1, r2 = (elems(v, n) for v in (r1, r2))
     for i in range(n):
         ctx.prove("rate(t) >= 0", ctx.all([ctx.le(0.0, r1[i]), ctx.le(0.0, r2[i])]))
         ctx.prove("rate rises with time", ctx.le(r1[i], r2[i]))
-        ctx.prove("rate(t) <= steady-state rate", ctx.le(r2[i], rs[i]))
-        ctx.prove("tau = 0: no incubation delay", ctx.implies(tau[i] <= 0, ctx.eq(r1[i], rs[i])))
+        live = ctx.all([tau[i] > 0, Z[i] > 0, beta[i] > 0, ctx.neg(G[i] == 0)])
+        ctx.prove("rate rises strictly with time while the incubation delay matters", ctx.implies(live, ctx.lt(r1[i], r2[i])))
         ctx.prove("Gcrit = 0 (no barrier computed): rate 0", ctx.implies(G[i] == 0, ctx.eq(r1[i], 0.0)))
-    ctx.safe("divisions well defined")
+        if steady:
+            ctx.prove("rate(t) <= steady-state rate", ctx.le(r2[i], rs[i]))
+            ctx.prove("tau = 0: no incubation delay", ctx.implies(tau[i] <= 0, ctx.eq(r1[i], rs[i])))
+    safe(ctx, "divisions well defined", [r1, r2] + ([rs] if steady else []))
 
 
 def monotone(ctx, site="bulk", beta_kind=1):
@@ -371,10 +427,12 @@ def monotone(ctx, site="bulk", beta_kind=1):
     dG = np.array([d1, d2]); T = np.array([T0, T0]); x = np.array([x0, x0])
     R, G, Z, beta, tau, rate = chain(ctx, p, matrix, therm, dG, T, x, beta_kind, np.inf)
     ctx.observe("rate", rate); ctx.observe("G", G)
-    ctx.prove("barrier does not increase with driving force (both positive)", ctx.implies(d1 > 0, ctx.le(G[1], G[0])))
-    ctx.prove("Z*beta independent of the driving force (both positive)", ctx.implies(d1 > 0, ctx.eq(Z[0] * beta[0], Z[1] * beta[1])))
-    # a barrier of exactly 0 at a positive driving force is read by nucleationRate as "no barrier computed" (rate 0); it
-    # can only occur through the clamped heterogeneous barrier passing through zero (see C14.barrier) and is excluded here
+    # rate = (Z*beta) * exp(-Gcrit/kT): the two factors separately (sufficient for the claim; with opaque exp a violation of
+    # the product alone would not replay)
+    ctx.prove("lemma for rate monotonicity: barrier does not increase with driving force (both positive)", ctx.implies(d1 > 0, ctx.le(G[1], G[0])))
+    ctx.prove("lemma for rate monotonicity: Z*beta does not decrease with driving force (both positive)", ctx.implies(d1 > 0, ctx.le(Z[0] * beta[0], Z[1] * beta[1])))
+    # a barrier of exactly 0 at a positive driving force would be read by nucleationRate as "no barrier computed" (rate 0);
+    # C14.barrier shows Gcrit = volumeFactor*gamma*Rcrit^2 > 0 there, so the guard is vacuous on a tree that passes C14.barrier
     regular = ctx.neg(ctx.all([d2 > 0, G[1] == 0]))
     ctx.prove("steady-state rate does not decrease with driving force", ctx.implies(regular, ctx.le(rate[0], rate[1])))
 
@@ -445,7 +503,6 @@ def cache(ctx, site0="grain boundaries", ops=("gamma", "gbe", "site:grain edges"
     setgamma(g)
     nb.gbEnergy = e
     check(*plan[0])
-    prev = plan[0]
     for op, st in zip(ops, plan[1:]):
         tag, site, g, e, dG = st
         if op == "gamma":
@@ -560,6 +617,10 @@ def model_zero(ctx, kinds=("bulk", "grain boundaries"), n_hist=1, beta_type=1, s
         pp.nucleation.gbEnergy = 2 * k * g
         pp.volume.setVolume(vm, "VM", 4)
         pp.Rmin = rmin
+        if sym_params and kind in ("grain edges", "grain corners"):
+            b, a, c = factors(ctx, pp, kind)
+            ctx.assume(c > 0, "volume factor of edge/corner nuclei positive inside the admissible range")
+            ctx.assume(b > 0, "area factor of edge/corner nuclei positive inside the admissible range")
     avail = [ctx.real("sites%d" % i, (0.0, 50.0)) for i in range(P)]
     for a in avail:
         ctx.assume(a >= 0)
@@ -579,14 +640,12 @@ def model_zero(ctx, kinds=("bulk", "grain boundaries"), n_hist=1, beta_type=1, s
     Y = PrecipitationData(m.phases, m.elements, 1)
     x0 = pos(ctx, "x", (0.01, 0.3)); ctx.assume(x0 < 1)
     Y.composition = np.array([[x0]]); Y.temperature = np.array([T]); Y.time = np.array([t])
-    prev = {}
     for nm in ("nucRate", "Rnuc", "Rcrit", "Gcrit", "impingement", "drivingForce"):
         arr = ctx.reals("prev_" + nm, (1, P), (0.0, 2.0))
         for i in range(P):
             if nm != "drivingForce":
                 ctx.assume(arr[0, i] >= 0)
         setattr(Y, nm, arr)
-        prev[nm] = [arr[0, i] * 1 for i in range(P)]
     if beta_type != 1:
         Y.xEqAlpha = np.array([[[pos(ctx, "xa%d" % i, (0.05, 0.3))] for i in range(P)]])
         Y.xEqBeta = np.array([[[pos(ctx, "xb%d" % i, (0.5, 0.9))] for i in range(P)]])
@@ -620,7 +679,7 @@ def noniso(ctx, N=2):
     tau = sc(NR.incubationTimeNonIsothermal(Z, cb, ct, cT, betas, times, temps, matrix))
     ctx.observe("tau", tau)
     ctx.prove("incubation time >= 0", ctx.le(0.0, tau))
-    ctx.safe("divisions well defined")
+    safe(ctx, "divisions well defined", [tau])
 
 
 def barrier_api(ctx, site="grain edges"):
@@ -681,9 +740,10 @@ HARNESSES = [
     Harness("C14.cf_k0", cf_k0, functions=_FD + _FB[1:], params={"quick": [{"site": s} for s in SITES], "thorough": [{"site": s} for s in SITES]}),
     Harness("C14.rates", rates, functions=_FR, opts={"symbolic_pi": False}, stubs=_ST, assumptions=_AR,
             params={"quick": [{"site": "bulk", "beta_kind": 1, "n": 1}, {"site": "grain boundaries", "beta_kind": 2, "n": 1},
-                              {"site": "grain edges", "beta_kind": 3, "n": 1}, {"site": "dislocations", "beta_kind": 1, "n": 2}],
-                    "thorough": [{"site": s, "beta_kind": b, "n": 2} for s in SITES for b in (1, 2, 3)]}),
-    Harness("C14.incubation", incubation, functions=[NR.nucleationRate], params={"quick": [{"n": 1}, {"n": 2}], "thorough": [{"n": 3}]}),
+                              {"site": "grain edges", "beta_kind": 3, "n": 1}, {"site": "dislocations", "beta_kind": 1, "n": 2}, {"site": "grain corners", "beta_kind": 1, "n": 1}],
+                    "thorough": [{"site": s, "beta_kind": b, "n": 1} for s in SITES for b in (1, 2, 3)] +
+                                [{"site": "bulk", "beta_kind": 2, "n": 2}, {"site": "grain boundaries", "beta_kind": 1, "n": 2}, {"site": "dislocations", "beta_kind": 3, "n": 2}]}),
+    Harness("C14.incubation", incubation, functions=[NR.nucleationRate], params={"quick": [{"n": 1, "steady": True}, {"n": 2, "steady": False}], "thorough": [{"n": 3, "steady": True}, {"n": 2, "steady": False}]}),
     Harness("C14.monotone", monotone, functions=_FR, stubs=_ST, assumptions=_AR,
             params={"quick": [{"site": "bulk", "beta_kind": 1}, {"site": "grain boundaries", "beta_kind": 1}],
                     "thorough": [{"site": s, "beta_kind": b} for s in SITES[:3] for b in (1, 2, 3)]}),
@@ -702,19 +762,25 @@ HARNESSES = [
             bounds={"phases": 2, "classes": "nb"},
             params={"quick": [{"kinds": ["bulk", "bulk"], "p": 0}, {"kinds": ["dislocations", "bulk"], "p": 0}, {"kinds": ["grain boundaries", "grain boundaries"], "p": 1},
                               {"kinds": ["grain edges", "grain edges"], "p": 0}, {"kinds": ["grain corners", "bulk"], "p": 0},
-                              {"kinds": ["grain boundaries", "bulk"], "p": 0, "parents": [1]}],
+                              {"kinds": ["grain boundaries", "bulk"], "p": 0, "parents": [1]}, {"kinds": ["dislocations", "dislocations"], "p": 1, "symvm": True},
+                              {"kinds": ["grain boundaries", "grain boundaries"], "p": 0, "symvm": True}],
                     "thorough": [{"kinds": [a, b], "p": 0, "nb": 3, "symvm": True} for a in SITES for b in (a, "bulk")]}),
     Harness("C14.model_zero", model_zero, functions=[PrecipitateBase._calcNucleationRate, NR.volumetricDrivingForce] + _FR, stubs=_ST + ["_calcNucleationSites of the model: symbolic value >= 0 (decided in C14.sites)"],
             assumptions=_AR + ["the working slice holds an arbitrary earlier evaluation (rates, radii >= 0)"],
             bounds={"phases": "1 (symbolic material constants) or 2 (fixed material constants)", "recorded steps": "n_hist"},
             params={"quick": [{"kinds": ["bulk", "grain boundaries"], "n_hist": 1, "beta_type": 1, "sym_params": False}, {"kinds": ["dislocations"], "n_hist": 2, "beta_type": 1},
                               {"kinds": ["grain boundaries"], "n_hist": 1, "beta_type": 1}],
-                    "thorough": [{"kinds": ["bulk", "grain boundaries"], "n_hist": 2, "beta_type": 1}, {"kinds": ["grain edges", "grain boundaries"], "n_hist": 1, "beta_type": 1, "sym_params": False},
-                                 {"kinds": ["grain corners"], "n_hist": 2, "beta_type": 1, "sym_params": False}]}),
+                    "thorough": [{"kinds": ["bulk", "grain boundaries"], "n_hist": 2, "beta_type": 1, "sym_params": False},
+                                 {"kinds": ["grain edges", "grain boundaries"], "n_hist": 1, "beta_type": 1, "sym_params": False},
+                                 {"kinds": ["grain corners"], "n_hist": 2, "beta_type": 1, "sym_params": False},
+                                 {"kinds": ["grain boundaries"], "n_hist": 2, "beta_type": 1}, {"kinds": ["grain edges"], "n_hist": 1, "beta_type": 1}, {"kinds": ["bulk"], "n_hist": 2, "beta_type": 1}]}),
     Harness("C14.model_beta2", model_zero, functions=[PrecipitateBase._calcNucleationRate, NR.betaBinary2], stubs=_ST, assumptions=_AR,
             doc="the same model-level step with the second binary impingement formula (setBetaBinary(2)): the step completes and records a rate >= 0",
-            params={"quick": [{"kinds": ["dislocations"], "n_hist": 2, "beta_type": 2}], "thorough": [{"kinds": ["bulk", "grain boundaries"], "n_hist": 1, "beta_type": 2}]}),
+            params={"quick": [{"kinds": ["dislocations"], "n_hist": 2, "beta_type": 2}], "thorough": [{"kinds": ["bulk", "grain boundaries"], "n_hist": 1, "beta_type": 2, "sym_params": False}, {"kinds": ["grain boundaries"], "n_hist": 2, "beta_type": 2}]}),
+    Harness("C14.cf_grid", cf_grid, functions=_FD, assumptions=["SAMPLED grid of ratios (plain floating-point evaluation), complements the solver-checked identities; no claim between the samples"],
+            bounds={"grid": "N+1 equally spaced ratios in [0, description.maxRatio - 1e-4] (bulk/dislocations: [0, 5])"},
+            params={"quick": [{"site": s, "N": 400} for s in SITES[1:]], "thorough": [{"site": s, "N": 4000} for s in SITES]}),
     Harness("C14.gb_poly", gb_poly, functions=_FD, opts={"symbolic_pi": True}, params={"quick": [{}], "thorough": [{}]}),
     Harness("C14.barrier", barrier, functions=_FB, opts={"symbolic_pi": True},
-            params={"quick": [{"site": s, "n": 1} for s in SITES], "thorough": [{"site": s, "n": 2} for s in SITES]}),
+            params={"quick": [{"site": s, "n": 1} for s in SITES] + [{"site": "grain boundaries", "n": 2}], "thorough": [{"site": s, "n": 2} for s in SITES]}),
 ]
